@@ -598,7 +598,7 @@ class Interp:
             st.events.append(("store", norm(target), v))
             base = self.eval(target.value, st)
             if len(base) == 1 and isinstance(base[0][0], Const) and isinstance(base[0][0].v, MList) and isinstance(v, Const) \
-                    and isinstance(v.v, (list, tuple)):
+                    and isinstance(v.v, (list, tuple, dict)):
                 bounds = []
                 for pe in (target.slice.lower, target.slice.upper, target.slice.step):
                     if pe is None:
@@ -1130,6 +1130,12 @@ class Interp:
                                     "sorted": sorted, "set": set, "frozenset": frozenset}[f.id](args[0].v)), st)]
                 except Exception as ex:
                     return [(Exc(type(ex).__name__, e), st)]
+        if isinstance(f, ast.Attribute) and f.attr == "fromkeys" and isinstance(f.value, ast.Name) and f.value.id == "dict" and "dict" not in st.env \
+                and 1 <= len(args) <= 2 and all(isinstance(a, Const) for a in args) and not kw:
+            try:
+                return [(Const(dict.fromkeys(*[a.v for a in args])), st)]  # (insertion-ordered: the de-duplication idiom)
+            except Exception as ex:
+                return [(Exc(type(ex).__name__, e), st)]
         if isinstance(f, ast.Attribute) and isinstance(recv, Const) and isinstance(recv.v, (MList, MDict)) and not kw \
                 and f.attr in ("append", "extend", "insert", "remove", "pop", "clear", "index", "count", "update", "setdefault", "get", "keys",
                                "values", "items", "copy"):
@@ -1385,6 +1391,11 @@ def compare(op, l, r):
                 return Const(l.v > r.v)
             if isinstance(op, ast.GtE):
                 return Const(l.v >= r.v)
+        except TypeError:
+            # two constants: Python raises here as well (a list looked up in a set, an int compared with a str)
+            if isinstance(op, (ast.In, ast.NotIn)) and isinstance(r.v, (set, frozenset, dict)) or isinstance(op, (ast.Lt, ast.LtE, ast.Gt, ast.GtE)):
+                return Exc("TypeError")
+            return Unknown("cmp")
         except Exception:
             return Unknown("cmp")
     if isinstance(op, (ast.In, ast.NotIn)) and isinstance(r, Const) and r.v is None:
